@@ -45,12 +45,19 @@ def site_str(prog, fn_key, bb):
 
 
 def enclosing_fn(key):
-    """Strip ::{closure#n} suffixes."""
+    """Strip ::{closure#n} suffixes; closures of an inlined private helper belong to the function it was inlined into."""
+    from .. import normalize
     while True:
         i = key.rfind("::{closure#")
         if i < 0:
-            return key
+            break
         key = key[:i]
+    for _ in range(4):
+        if key in normalize.REPARENT:
+            key = enclosing_fn(normalize.REPARENT[key])
+        else:
+            break
+    return key
 
 
 def mentions_field(e, adt, field):
@@ -77,7 +84,90 @@ def controlling(body, bb):
 
 def guard_atoms(body, bb):
     """[(expr, truth(True/False/None), raw_value, switch_bb)] for switch edges dominating bb,
-    with `Not` folded into the truth value."""
+    with `Not` folded into the truth value.  For a block of a closure that is the body of an iterator `for_each`,
+    the conditions of the `.filter(..)` adaptors in front of it are included (`for x in it { if p(x) { f(x) } }` and
+    `it.filter(p).for_each(f)` have the same guards)."""
+    out = _guard_atoms_local(body, bb)
+    try:
+        out = out + _iterator_guards(body)
+    except Exception:
+        pass
+    return out
+
+
+ITER_FOR_EACH = ("std::iter::Iterator::for_each",)
+ITER_FILTER = ("std::iter::Iterator::filter",)
+
+
+def _iterator_guards(body):
+    fn = body.fn
+    prog = getattr(fn, "prog", None)
+    if prog is None or fn.kind != "Closure" or body.promoted_index is not None:
+        return []
+    parent = fn.j.get("parent_fn")
+    pf = prog.fns.get(parent)
+    if pf is None:
+        return []
+    pb = pf.body
+    out = []
+    for b in range(pb.n):
+        t = pb.term(b)
+        if t["k"] != "call" or callee_path(t) not in ITER_FOR_EACH or len(t["args"]) < 2:
+            continue
+        a1 = strip(pb.expr_of_operand(t["args"][1]))
+        if not (a1[0] == "agg" and a1[1] == fn.key):
+            continue
+        recv = pb.expr_of_operand(t["args"][0])
+        for ce in calls_in(recv):
+            if ce[1] in ITER_FILTER and len(ce[2]) >= 2:
+                fa = strip(ce[2][1])
+                if fa[0] == "agg" and isinstance(fa[1], str) and fa[1] in prog.fns:
+                    for (e, pol) in true_conditions(prog, fa[1]):
+                        out.append((e, pol, 1 if pol else 0, None))
+        # the guards of the for_each call itself hold as well
+        out += _guard_atoms_local(pb, b)
+    return out
+
+
+def true_conditions(prog, fn_key):
+    """Atoms (expr, truth) that hold whenever the bool function / closure fn_key returns true (those common to all its
+    true-returning paths); captured variables are resolved to the captured expressions."""
+    fn = prog.fns[fn_key]
+    body = fn.body
+    paths = []
+    for d in body.defs().get(0, []):
+        if body.blocks[d[1]]["cleanup"]:
+            continue
+        atoms = [(e, pol) for (e, pol, v, sb) in _guard_atoms_local(body, d[1]) if pol is not None]
+        if d[0] == "stmt" and d[3]["k"] == "=":
+            e = body.expr_of_rvalue(d[3]["rv"])
+            pol = True
+            while e[0] == "unop" and e[1] == "Not":
+                e = e[2]
+                pol = not pol
+            if e[0] == "const" and "int" in e[1]:
+                if bool(e[1]["int"]) != pol:
+                    continue            # returns false here
+            else:
+                atoms.append((e, pol))
+        elif d[0] == "call":
+            t = d[2]
+            atoms.append((("call", callee_path(t), [body.expr_of_operand(a) for a in t["args"]], d[1]), True))
+        paths.append(atoms)
+    if not paths:
+        return []
+    common = None
+    for atoms in paths:
+        ks = {(canon(e), pol) for (e, pol) in atoms}
+        common = ks if common is None else (common & ks)
+    out = []
+    for (e, pol) in paths[0]:
+        if (canon(e), pol) in common:
+            out.append((deep(prog, fn_key, e), pol))
+    return out
+
+
+def _guard_atoms_local(body, bb):
     out = []
     for (sb, e, val) in Guards(body).controlling(bb):
         pol = None
@@ -483,6 +573,8 @@ def loop_continues_after(prog, inst_id, site_bb):
     dom = body.dominators()
     inner = [n for n in nexts if n in dom.get(site_bb, ())]
     if not inner:
+        if is_for_each_body(prog, prog.insts[inst_id].key):
+            return True, "for_each visits every element"
         return False, "site is not inside a loop"
     # innermost = the dominating `next` closest to the site (dominated by all other dominating nexts)
     loop_next = max(inner, key=lambda n: len(dom[n]))
@@ -751,3 +843,74 @@ def assume_enum_value(subject_canon, value, variant_name):
                     return switch_targets_for(t, truth if pol else (not truth))
         return None
     return a
+
+
+def assume_option_field(adt, field, some):
+    """PEval assumption: the Option-typed field `adt.field` is Some (some=True) / None, in whatever way it is tested:
+    is_some() / is_none() calls on it, or a match / if-let on its discriminant."""
+    def a(body, b, t, e):
+        pol = True
+        while e[0] == "unop" and e[1] == "Not":
+            e = e[2]
+            pol = not pol
+        if e[0] == "call" and e[2] and is_field(e[2][0], adt, field):
+            if e[1].endswith("Option::<T>::is_some"):
+                return switch_targets_for(t, some if pol else (not some))
+            if e[1].endswith("Option::<T>::is_none"):
+                return switch_targets_for(t, (not some) if pol else some)
+        if e[0] == "discr" and is_field(e[1], adt, field):
+            want = 1 if some else 0
+            tgt = None
+            for (val, tb) in t["targets"]:
+                if val == want:
+                    tgt = tb
+            return {tgt if tgt is not None else t["otherwise"]}
+        return None
+    return a
+
+
+def is_for_each_body(prog, fn_key):
+    """fn_key is a closure handed to Iterator::for_each by its parent function."""
+    fn = prog.fns.get(fn_key)
+    if fn is None or fn.kind != "Closure":
+        return False
+    pf = prog.fns.get(fn.j.get("parent_fn"))
+    if pf is None:
+        return False
+    pb = pf.body
+    for b in range(pb.n):
+        t = pb.term(b)
+        if t["k"] == "call" and callee_path(t) in ITER_FOR_EACH and len(t["args"]) >= 2:
+            a1 = strip(pb.expr_of_operand(t["args"][1]))
+            if a1[0] == "agg" and a1[1] == fn_key:
+                return True
+    return False
+
+
+# ---- re-initialisation writes -------------------------------------------------------------------------------------
+REINIT_FNS = {SET + "::clear", SET + "::new", EXEC + "::step", EXEC + "::new"}
+
+
+def ctor_field_value(prog, adt, field, ctor_fn):
+    """canon() of the value the constructor function gives `adt.field` (None if not found)."""
+    for w in prog.writers().get((adt, field), []):
+        if w["kind"] == "construct" and enclosing_fn(w["fn"]) == ctor_fn:
+            return canon(prog.fns[w["fn"]].body.expr_of_operand(w["op"]))
+    return None
+
+
+def is_reinit_write(prog, w, adt, field, ctor_fn):
+    """The write `w` (entry of prog.writers()) re-initialises adt.field between iterations: it sits in one of the
+    per-iteration reset functions (after helper inlining) and stores exactly the value the constructor stores (or clears a
+    collection the constructor creates empty).  Such a write is the in-place spelling of `*slot = Adt::new(..)`."""
+    if enclosing_fn(w["fn"]) not in REINIT_FNS:
+        return False
+    want = ctor_field_value(prog, adt, field, ctor_fn)
+    if want is None:
+        return False
+    if w["kind"] == "assign" and w.get("exact"):
+        return canon(rv_expr(prog, w)) == want
+    if w["kind"] == "borrow_mut":
+        cons = prog.borrow_consumer(w["fn"], w["bb"], w["idx"])
+        return bool(cons) and cons[2] == 0 and is_std_collection_call(callee_path(cons[1]), "clear") and "::new(" in want
+    return False
